@@ -8,7 +8,7 @@ namespace VM
 inductive GoVal where
   | nil                                        -- untyped nil interface
   | bool (b : Bool)
-  | int (bits : Nat) (v : Int)                 -- int8 … int64 (int = 64)
+  | int (bits : Nat) (v : Int)                 -- int8 … int64; bits = 0 is the platform `int` (64 bits wide, a type of its own)
   | uint (bits : Nat) (v : Nat)                -- uint8 … uint64
   | float (bits : Nat) (v : Rat)               -- float32 / float64 (exactly representable values)
   | str (s : List UInt8)                       -- Go strings are byte sequences (possibly invalid UTF-8)
@@ -103,12 +103,15 @@ def isZero : GoVal → Bool
   | nilPtr _ => true
   | ptr _ _ => false       -- a non-nil pointer is never the zero value of its type, whatever it points to
 
+/-- width of an integer kind: `int`/`uint` (bits = 0) are 64 bits wide here -/
+def widthOf (bits : Nat) : Nat := if bits == 0 then 64 else bits
+
 /-- wrap an integer to `bits` bits, two's complement -/
 def wrapInt (bits : Nat) (v : Int) : Int :=
-  let m : Int := (2 ^ bits : Nat)
+  let m : Int := (2 ^ widthOf bits : Nat)
   let r := v % m
   if r ≥ m / 2 then r - m else r
-def wrapUint (bits : Nat) (v : Int) : Nat := (v % ((2 ^ bits : Nat) : Int)).toNat
+def wrapUint (bits : Nat) (v : Int) : Nat := (v % ((2 ^ widthOf bits : Nat) : Int)).toNat
 
 /-- UTF-8 encoding of a code point (what `string(rune(i))` produces); invalid code points
     become U+FFFD -/
